@@ -138,6 +138,7 @@ type vctl struct {
 	prio      map[string]int // policy pct
 	nrel      int
 	snaps     int
+	busy      bool
 	unsettled int // self-check: times the runtime showed a runnable goroutine of the build after settleAfter
 }
 
@@ -221,6 +222,7 @@ func (c *vctl) anyActive(gs []vgor) bool {
 
 // settle waits until no goroutine of the build is running or runnable and returns the snapshot that showed it.
 func (c *vctl) settle() []vgor {
+	t0 := time.Now()
 	for spin := 0; ; spin++ {
 		runtime.Gosched()
 		gs := vgoroutines()
@@ -230,6 +232,10 @@ func (c *vctl) settle() []vgor {
 		}
 		if spin > 50 {
 			time.Sleep(50 * time.Microsecond)
+			if time.Since(t0) > 5*time.Second {
+				c.busy = true // a goroutine of the build has been running for 5 s without reaching a hook, blocking or ending
+				return gs
+			}
 		}
 	}
 }
@@ -338,6 +344,11 @@ func (c *vctl) drive(done chan error, res *vresult) (runErr error, verdict strin
 			default:
 			}
 		}
+		if c.busy {
+			res.blocked = c.report(gs)
+			c.giveUp()
+			return nil, "no termination: a goroutine of the build has been running for 5 s without reaching a hook point, blocking or ending"
+		}
 		p := c.choose()
 		if p != nil {
 			if c.nrel > vctlStepBudget {
@@ -434,7 +445,7 @@ func TestVerifC05Ctl(t *testing.T) {
 
 	var cur atomic.Pointer[vrun]
 	var curSince atomic.Int64
-	stopWatch := vprocessWatchdog(outPath, &cur, &curSince, 60*time.Second)
+	stopWatch := vprocessWatchdog(outPath, &cur, &curSince, 30*time.Second)
 	defer stopWatch()
 	nOracle, nVerdict := 0, 0
 	for _, r := range runs {
